@@ -109,7 +109,18 @@ func ExponentialBackoff(backoff time.Duration, factor, jitter float64) Backoff {
 
 		// do exponential backoff with jitter
 		temp := float64(backoff) * math.Pow(factor, float64(attempt))
-		return time.Duration(temp*(1-jitter)) + time.Duration(rand.Int64N(int64(2*jitter*temp)))
+		interval := temp * (1 - jitter)
+		// rand.Int64N panics unless its argument is positive and fits in an int64
+		if spread := 2 * jitter * temp; spread >= 1 {
+			if spread >= math.MaxInt64 {
+				spread = math.MaxInt64 / 2
+			}
+			interval += float64(rand.Int64N(int64(spread)))
+		}
+		if interval >= math.MaxInt64 {
+			return math.MaxInt64
+		}
+		return time.Duration(interval)
 	}
 }
 
